@@ -12,6 +12,7 @@ import json
 import random
 from urllib.parse import urlsplit
 
+from bcheck import history
 from bcheck.common import Collector, args, run_sharded, call
 from bcheck import ref_c17 as R
 
@@ -681,6 +682,8 @@ def replay(a, col):
 def main():
     a = args("C17")
     col = Collector("C17", a.tier, a.seed)
+    if a.replay and history.replayed(a, col, "C17"):
+        return
     if a.replay:
         return replay(a, col)
     jobs, bounds = build_jobs(a.tier, a.seed)
@@ -708,6 +711,7 @@ def main():
         "distinct (base, href kind, quoting, decoration, context) of B + distinct (base, href sequence) of C + random documents"
         % (bounds["structural_sequence_length"], len(PIECES), 5 if a.tier == "quick" else 11, len(GENERIC_HREFS), len(DECOS),
            len(BASES), bounds["link_sequence_length"], len(SEQ_HREFS) + 4, len(BASES), bounds["random_documents"]))
+    history.run(col, "C17", a.tier == "quick")
     col.dump(a.out)
 
 
